@@ -89,10 +89,11 @@ func genGarbage(seed uint64, tier, variant string) any {
 		switch k {
 		case "nest":
 			// Off encodes (position, aggregate type); N levels of headers with a declared length
-			p.Muts[i].Val = pick(r, "1", "2", "100000000", "26214", "4294967296", evilLens[r.IntN(len(evilLens))])
+			// ("?" = the streamed form of an aggregate, which has its own decoder path)
+			p.Muts[i].Val = pick(r, "1", "2", "?", "?", "100000000", "26214", "4294967296", evilLens[r.IntN(len(evilLens))])
 			p.Muts[i].N = pick(r, 10, 500, 3000, 9999, 10001, 20000)
 			if r.IntN(40) == 0 {
-				p.Muts[i].Val, p.Muts[i].N = "1", 6_000_000 // deep enough to exhaust a goroutine stack if the decoder recurses freely
+				p.Muts[i].Val, p.Muts[i].N = pick(r, "1", "?"), 6_000_000 // deep enough to exhaust a goroutine stack if the decoder recurses freely
 			}
 		case "bigtail":
 			// a blob whose declared length is wrong or huge, followed by N bytes of real payload
